@@ -84,6 +84,19 @@ def worker(ck: Check, job):
                     skipped = toks[i][0] == '-' or all(strings.char_is_whitespace(ord(c)) for c in toks[i][0])
                     problems.append(('separated-skipped' if skipped else 'separated', 'token %d %r is declared separated from its predecessor but both are in '
                                      'occurrence %r' % (i, toks[i][0], o['text'])))
+        if thr == 0.0:
+            flagged = [i for i, t in enumerate(toks) if t[2]]
+            if len(flagged) == 1 and flagged[0] % 2 == 0 and flagged[0] > 0 and not any(t[3] for t in toks):
+                i0 = flagged[0]
+                ra, rb = nat.find(code, toks[:i0], 0.0), nat.find(code, toks[i0:], 0.0)
+                if 'ok' in ra and 'ok' in rb:
+                    exp = [(o['start'], o['end'], o['text'], o['is_ordinal']) for o in map(native_occ, ra['ok']['batch'])] + \
+                          [(o['start'] + i0, o['end'] + i0, o['text'], o['is_ordinal']) for o in map(native_occ, rb['ok']['batch'])]
+                    got = [(o['start'], o['end'], o['text'], o['is_ordinal']) for o in occs]
+                    rep['as_if_comma'] = exp
+                    if got != exp:
+                        problems.append(('separated-not-comma', 'token %d %r is declared separated: expected %r (as after a spoken comma) '
+                                         'but got %r' % (i0, toks[i0][0], exp, got)))
         lazy = [native_occ(o) for o in r['ok']['lazy']]
         if lazy != occs:
             problems.append(('lazy-differs', 'lazy iterator yields %r, batch %r' % (
@@ -117,6 +130,45 @@ def worker(ck: Check, job):
                 conds.append(z3.Not(z3.And(st.sepf[2 * i], skipped)))
             return z3.And(*conds)
         return None
+    # (c2) "as if a comma had been spoken": at threshold 0, with exactly the separation hint of word i set (no other hint),
+    # the result is the scan of the tokens before word i followed by the scan of the tokens from word i on (shifted):
+    # the separated word is neither fused with its predecessor nor lost
+    cov_c2 = []
+    if thr == 0.0:
+        from .c11 import seq_occ_equal as _unused   # noqa: F401  (same comparison, with a shift, written out below)
+        for i in range(1, st.k):
+            only_i = z3.And(st.sepf[2 * i], *[z3.Not(f_) for j_, f_ in enumerate(st.sepf) if j_ != 2 * i],
+                            *[z3.Not(f_) for f_ in st.nanf])
+            exp_ = make_executor(ck, st.assm + [only_i])
+            exp_.shape_ignore = {'Occurence'}
+            pre_occ = merged(cov_c2, run_scanner(ck, exp_, L, st.slots[:2 * i], 0.0))
+            ck.absorb(exp_)
+            exs_ = make_executor(ck, st.assm + [only_i])
+            exs_.shape_ignore = {'Occurence'}
+            suf_occ = merged(cov_c2, run_scanner(ck, exs_, L, st.slots[2 * i:], 0.0))
+            ck.absorb(exs_)
+            for e_ in (exp_, exs_):
+                bad += [('panic: %s %s at %s' % (p.kind, p.msg, p.where), c) for p, c in zip(e_.panics, conds_of(e_.panics))]
+            npre, nsuf = B64(pre_occ.len), B64(suf_occ.len)
+            ep = [o.fields for o in pre_occ.elems if o is not UNINIT and o is not None]
+            es = [o.fields for o in suf_occ.elems if o is not UNINIT and o is not None]
+            eb = [o.fields for o in batch.elems if o is not UNINIT and o is not None]
+
+            def same_(fa, fb, shift):
+                return z3.And(B64(fa[0]) == B64(fb[0]) + shift, B64(fa[1]) == B64(fb[1]) + shift, values_equal(fa[2], fb[2]),
+                              ZB(fa[4]) == ZB(fb[4]))
+            conds = [nb == npre + nsuf]
+            for j, fb_ in enumerate(eb):
+                for a in range(len(ep) + 1):
+                    if j < a:
+                        if j < len(ep):
+                            conds.append(z3.Implies(z3.And(npre == a, z3.UGT(nb, j)), same_(fb_, ep[j], 0)))
+                    elif j - a < len(es):
+                        conds.append(z3.Implies(z3.And(npre == a, z3.UGT(nb, j)), same_(fb_, es[j - a], 2 * i)))
+                    else:
+                        conds.append(z3.Implies(npre == a, z3.ULE(nb, j)))
+            bad.append(('with the separation hint on word %d the result is not that of a spoken comma (scan of the tokens before '
+                        'it followed by the scan from it on)' % i, z3.And(only_i, z3.And(*cov_c2), z3.Not(z3.And(*conds)))))
     ck.prove_none(name + ':hints', st.assm, guard(cov[:1], bad), on_cex, block)
     ck.cover(name + ':hints:witness', st.assm + [z3.UGE(nb, 1), z3.Or(*st.nanf), z3.Or(*st.sepf[1:])],
              lambda m: {'lang': code, 'tokens': tokens_of(m)})
@@ -250,11 +302,12 @@ def run(ck: Check):
     only = os.environ.get('VERIF_LANGS')
     if only:
         langs = [c for c in langs if c in only.split(',')]
-    jobs = [(c, t) for c in langs for t in (10.0,)] + ([(c, 0.0) for c in langs] if ck.tier != 'quick' else [])
+    jobs = [(c, t) for c in langs for t in (10.0, 0.0)]
     run_parallel(ck, worker, jobs)
-    ck.outside += ['streams of more than %d word tokens' % (2 if ck.tier == 'quick' else 3), 'thresholds other than 10.0 (quick) / 0.0 and 10.0',
-                   'the exact "as if a comma had been spoken" equivalence is checked as: a separated token never shares an '
-                   'occurrence with its predecessor']
+    ck.outside += ['streams of more than %d word tokens' % (2 if ck.tier == 'quick' else 3), 'thresholds other than 0.0 and 10.0',
+                   'the "as if a comma had been spoken" equivalence is decided at threshold 0 for one separation hint on a word '
+                   'token at a time (no other hint set); at other thresholds only: a separated token never shares an occurrence '
+                   'with its predecessor']
     ck.assumptions.append('hint flags are free Booleans on every token; tokens are behaviour-class representatives')
     return ('Streams of k words with solver-chosen words, separators and hint flags: find_numbers and the FindNumbers '
             'iterator (constructed by find_numbers_iter, advanced by calling its MIR `next` repeatedly from merged states) are '
